@@ -51,6 +51,9 @@ func (r *runner) dup(key string) bool {
 func (r *runner) sample(bucket string) bool {
 	r.bucket[bucket]++
 	n := r.bucket[bucket]
+	if strings.HasSuffix(bucket, "param-id") {
+		return true
+	}
 	if strings.HasSuffix(bucket, "fill-long") { // long constant bodies: the guard answers; few are enough
 		return n <= 12 || n%(r.corrEvery*8) == 0
 	}
@@ -58,17 +61,19 @@ func (r *runner) sample(bucket string) bool {
 }
 
 // check runs every C03 oracle on one body of one type.
-func (r *runner) check(t *C03Type, ver, dial int, body []byte, pool [][]byte, kind string) {
+func (r *runner) check(t *C03Type, ver, dial int, body []byte, pool []C03VerBody, kind string) {
 	c := r.c
 	hk := fnv.New64a()
 	hk.Write([]byte(t.Name))
 	hk.Write([]byte{byte(ver), byte(dial)})
 	hk.Write(body)
 	hkey := hk.Sum64()
-	if _, ok := r.seen[hkey]; ok {
-		return
+	if c.Quick() { // the thorough tier runs tens of millions of bodies: no table of what was seen
+		if _, ok := r.seen[hkey]; ok {
+			return
+		}
+		r.seen[hkey] = struct{}{}
 	}
-	r.seen[hkey] = struct{}{}
 	mkkey := func() string { return fmt.Sprintf("%s %d %d %s", t.Name, ver, dial, Hx(body)) }
 	t0 := time.Now()
 	ans := C03Parse(t, ver, dial, body, nil)
@@ -92,9 +97,14 @@ func (r *runner) check(t *C03Type, ver, dial int, body []byte, pool [][]byte, ki
 		viol(c, Violation{Signature: "C03/string/" + t.Name, What: "String() panicked on a successfully parsed value", Input: "c03p " + mkkey(),
 			Observed: Trunc(ans, 400), Required: "text"})
 	}
+	// String() is run on the exact-capacity call only: the comparisons below are on the parse outcome
+	cmp := ans
+	if out == "strpanic" {
+		cmp = "ok" + ans[len("strpanic"):]
+	}
 	// (b) spare capacity behind two different poisoned tails: same outcome and same value
 	for _, tail := range r.tails {
-		if a2 := C03Parse(t, ver, dial, body, tail); a2 != ans {
+		if a2 := C03Parse(t, ver, dial, body, tail); a2 != cmp {
 			viol(c, Violation{Signature: "C03/tail/" + t.Name, What: "the result depends on memory beyond the slice",
 				Input: "c03t " + mkkey() + " " + Hx(tail), Observed: Trunc(a2, 400), Required: "same as with exact capacity: " + Trunc(ans, 400)})
 		}
@@ -103,13 +113,16 @@ func (r *runner) check(t *C03Type, ver, dial int, body []byte, pool [][]byte, ki
 	if len(pool) > 0 {
 		n := 1 + c.Rng.Intn(3)
 		seq := make([]C03VerBody, 0, n+1)
-		vers := t.Versions()
 		for i := 0; i < n; i++ {
-			p := pool[c.Rng.Intn(len(pool))]
-			if c.Rng.Intn(6) == 0 && len(p) > 0 { // a prefix: a parse that fails half way
-				p = p[:c.Rng.Intn(len(p))]
+			p := pool[c.Rng.Intn(len(pool))] // a well-formed body of some header version, parsed with that version
+			if c.Rng.Intn(6) == 0 && len(p.Body) > 0 { // a prefix: a parse that fails half way
+				p.Body = p.Body[:c.Rng.Intn(len(p.Body))]
 			}
-			seq = append(seq, C03VerBody{Ver: vers[c.Rng.Intn(len(vers))], Body: p})
+			if c.Rng.Intn(8) == 0 { // or with another header version
+				vers := t.Versions()
+				p.Ver = vers[c.Rng.Intn(len(vers))]
+			}
+			seq = append(seq, p)
 		}
 		seq = append(seq, C03VerBody{Ver: ver, Body: body})
 		a3 := C03ParseSeq(t, dial, seq)
@@ -122,7 +135,7 @@ func (r *runner) check(t *C03Type, ver, dial int, body []byte, pool [][]byte, ki
 			}
 			return sb.String()
 		}
-		if a3 != ans {
+		if a3 != cmp {
 			viol(c, Violation{Signature: "C03/history/" + t.Name, What: "the outcome depends on what the receiver parsed before",
 				Input: mkreq(), Observed: Trunc(a3, 600), Required: "same as a fresh receiver: " + Trunc(ans, 600)})
 		}
@@ -135,8 +148,10 @@ func (r *runner) check(t *C03Type, ver, dial int, body []byte, pool [][]byte, ki
 	// correspondence case (sampled)
 	if t.Model && r.sample(fmt.Sprintf("%s/%d/%d/%s", t.Name, ver, dial, kind)) {
 		c.Case("c03p "+mkkey(), ans, nontrivial)
-	} else {
+	} else if c.Quick() {
 		c.Eval(strconv.FormatUint(hkey, 36), nontrivial)
+	} else {
+		c.Evaluations++
 	}
 }
 
@@ -147,7 +162,7 @@ func c03(c *Ctx) {
 	r := &runner{c: c, g: &C03Gen{R: c.Rng, Big: !c.Quick()}, seen: map[uint64]struct{}{}, bucket: map[string]int{},
 		corrAll: 150, corrEvery: 9, tails: [][]byte{fill(64, 0xA5), fill(64, 0x01)}}
 	if !c.Quick() {
-		r.corrAll, r.corrEvery = 1500, 3
+		r.corrAll, r.corrEvery = 300, 40
 	}
 	tStart := time.Now()
 	// the registry against the source
@@ -164,26 +179,36 @@ func c03(c *Ctx) {
 		all[i] = i
 	}
 	if !c.Quick() {
-		nvalid, nmut, nfree = 30, 1500, 400
+		nvalid, nmut, nfree = 10, 400, 48
 		bvals = all
 	}
-	first := true
 	for _, t := range C03Types {
-		first = true
-		for _, ver := range t.Versions() {
-			for _, dial := range t.Dialects() {
-				var pool [][]byte
-				var groups [][][]int
+		for di, dial := range t.Dialects() {
+			// well-formed bodies of every header version first: the receiver-reuse runs draw their earlier
+			// bodies from all of them (a 2019 body before a 2013 one and the other way round)
+			type vb struct {
+				bodies [][]byte
+				groups [][][]int
+			}
+			valid := map[int]*vb{}
+			var pool []C03VerBody
+			for vi, ver := range t.Versions() {
 				nv := nvalid
-				if !first && c.Quick() {
+				if (vi > 0 || di > 0) && c.Quick() {
 					nv = 2
 				}
+				v := &vb{}
 				for i := 0; i < nv; i++ {
 					b, pos := t.Valid(r.g, ver, dial)
-					pool = append(pool, b)
-					groups = append(groups, pos)
+					v.bodies = append(v.bodies, b)
+					v.groups = append(v.groups, pos)
+					pool = append(pool, C03VerBody{Ver: ver, Body: b})
 				}
-				pool = append(pool, nil, []byte{0}, []byte{0xFF})
+				valid[ver] = v
+			}
+			pool = append(pool, C03VerBody{Ver: 2}, C03VerBody{Ver: 2, Body: []byte{0}}, C03VerBody{Ver: 3, Body: []byte{0xFF}})
+			for vi, ver := range t.Versions() {
+				first := vi == 0 && di == 0
 				// (a)(b) every length with 0x00 / 0xFF / 0x01 fill
 				maxl := 300
 				if first {
@@ -204,8 +229,8 @@ func c03(c *Ctx) {
 					}
 				}
 				// (c)(d)(f) valid bodies, truncations, extensions, count sweeps, mutations
-				for bi := 0; bi < nv; bi++ {
-					b := pool[bi]
+				v := valid[ver]
+				for bi, b := range v.bodies {
 					r.check(t, ver, dial, b, pool, "valid")
 					for n := 0; n < len(b); n++ {
 						if n > 160 && n%5 != 0 && c.Quick() {
@@ -216,7 +241,7 @@ func c03(c *Ctx) {
 					r.check(t, ver, dial, append(append([]byte{}, b...), 0), pool, "extend")
 					r.check(t, ver, dial, append(append([]byte{}, b...), 0xFF, 0xFF, 0xFF, 0xFF, 0xFF, 0xFF), pool, "extend")
 					// every value in every byte of the count / length / id fields
-					gs := groups[bi]
+					gs := v.groups[bi]
 					if c.Quick() && len(gs) > 7 {
 						gs = append(append([][]int{}, gs[:3]...), gs[len(gs)-4:]...)
 					}
@@ -224,18 +249,18 @@ func c03(c *Ctx) {
 					for _, grp := range gs {
 						for _, pos := range grp {
 							isCnt[pos] = true
-							for _, v := range all {
+							for _, x := range all {
 								m := append([]byte{}, b...)
-								m[pos] = byte(v)
+								m[pos] = byte(x)
 								r.check(t, ver, dial, m, pool, "count")
 							}
 						}
-						for _, v := range []byte{0xFF, 0xFE, 0x00} {
+						for _, x := range []byte{0xFF, 0xFE, 0x00} {
 							m := append([]byte{}, b...)
 							for _, pos := range grp {
-								m[pos] = v
+								m[pos] = x
 							}
-							if v == 0xFE {
+							if x == 0xFE {
 								m[grp[len(grp)-1]] = 0xFF
 								m[grp[0]] = 0x7F
 							}
@@ -250,9 +275,9 @@ func c03(c *Ctx) {
 								continue
 							}
 							done++
-							for _, v := range bvals {
+							for _, x := range bvals {
 								m := append([]byte{}, b...)
-								m[pos] = byte(v)
+								m[pos] = byte(x)
 								r.check(t, ver, dial, m, pool, "sweep")
 							}
 						}
@@ -272,7 +297,7 @@ func c03(c *Ctx) {
 								p := c.Rng.Intn(len(m) + 1)
 								m = append(m[:p], append([]byte{byte(c.Rng.Intn(256))}, m[p:]...)...)
 							case 4: // splice the tail of another valid body
-								o := pool[c.Rng.Intn(nv)]
+								o := v.bodies[c.Rng.Intn(len(v.bodies))]
 								if len(o) > 0 {
 									m = append(m[:c.Rng.Intn(len(m)+1)], o[c.Rng.Intn(len(o)):]...)
 								}
@@ -281,7 +306,24 @@ func c03(c *Ctx) {
 						r.check(t, ver, dial, m, pool, "mutate")
 					}
 				}
-				first = false
+			}
+		}
+	}
+	// terminal parameters: EVERY id 0x000..0x120 (plus a few far ones) x the lengths a typed member may demand,
+	// alone and after a parameter that was stored before (ties the id tables of the model to the switch in parseParam)
+	if t := C03TypeByName("P0x8103"); t != nil {
+		pool := []C03VerBody{{Ver: 2, Body: []byte{1, 0, 0, 0, 1, 4, 0, 0, 0, 9}}, {Ver: 2, Body: []byte{1, 0, 0, 0, 0x83, 2, 0x41, 0x42}}}
+		ids := []uint32{0xf364, 0x10001, 0x1000001, 0xffffffff}
+		for id := uint32(0); id <= 0x120; id++ {
+			ids = append(ids, id)
+		}
+		for _, id := range ids {
+			for _, n := range []int{0, 1, 2, 3, 4, 5, 8, 9} {
+				item := append([]byte{byte(id >> 24), byte(id >> 16), byte(id >> 8), byte(id), byte(n)}, r.g.Bytes(n)...)
+				r.check(t, 2, 0, append([]byte{1}, item...), pool, "param-id")
+				two := append([]byte{2, 0, 0, 0, 1, 4, 0, 0, 0, 7}, item...)
+				r.check(t, 2, 0, append(append([]byte{}, two...), item...), pool, "param-id")
+				r.check(t, 2, 0, append([]byte{3}, append(append([]byte{}, two[1:]...), item...)...), pool, "param-id")
 			}
 		}
 	}
